@@ -292,4 +292,20 @@ collapse to it. -/
 def exactTotal (L : Nat) (rows : List (List Nat)) (s : List Nat) : Nat :=
   (((allAligns L rows.length).filter (fun a => collapse a == s)).map (weight rows)).sum
 
+/-- The textbook CTC prefix recursion, as a specification: for the rows given in
+**reverse** order (last time step first) and a label sequence `s`, the pair
+(total weight of alignments collapsing to `s` that end in a blank or are empty,
+ total weight of those that end in a non-blank). -/
+def dpRev : List (List Nat) → List Nat → Nat × Nat
+  | [], s => (if s = [] then 1 else 0, 0)
+  | row :: before, s =>
+    let cur := dpRev before s
+    let nb' :=
+      match s.getLast? with
+      | none => 0
+      | some m =>
+        let par := dpRev before s.dropLast
+        row.getD m 0 * (cur.2 + par.1 + (if s.dropLast.getLast? = some m then 0 else par.2))
+    (row.getD 0 0 * (cur.1 + cur.2), nb')
+
 end RtenVerif.Ctc
